@@ -41,6 +41,12 @@ ORACLE_RULES = {
     "annotated-z3-path": [A("Ann(UGE(x, 8), 1)"), A("ZeroExt(1, y) == x + 1"), A("Ann(ULT(x, 3), 2)"), CORE(), SAT(), CORE()],
     "annotated-variable": [A("xa == 5"), A("x == 5"), A("xa != 5"), CORE(), A("x != 5"), CORE()],
     "annotated-then-simplify": [A("Ann(Or(x == 1, x == 2), 3)"), A("Ann(UGE(x, 8), 1)"), CORE(), {"s": 0, "op": "simplify"}, CORE()],
+    # the same formula held by two solvers with different annotations: the backend abstracts Z3's core through an AST cache keyed
+    # by the formula and shared by all solvers - each solver must get its OWN constraint back (found at the thorough tier)
+    "same-formula-other-annotations": [A("y == 5"), A("Ann(Not(y == 5), 3)"), {"s": 0, "op": "branch"}, A("Ann(y == 5, 1)"), SAT(1), SAT(0),
+                                       CORE(1), CORE(0)],
+    "same-formula-other-annotations-z3": [A("ULT(x, 3)"), A("ZeroExt(1, y) == x + 1"), {"s": 0, "op": "branch"}, A("Ann(ULT(x, 3), 2)"),
+                                          A("SLT(y, 0)"), A("SLT(y, 0)", 1), SAT(1), SAT(0), CORE(1), CORE(0), CORE(1)],
     # a concretely false constraint is held by no child of a composite: it is the core
     "concrete-false": [A("ULT(x, 3)"), A("false"), CORE(), SAT(), CORE(), {"s": 0, "op": "branch"}, A("b", 1), CORE(1)],
     "concrete-false-first": [A("x != x"), CORE(), A("y == 6"), CORE(), CORE(0, ["b"])],
